@@ -9,7 +9,8 @@ def groups():
     G = []
 
     def g(name, props, harness, enforce, what, replace=TREE, **kw):
-        G.append(Group('mapc.' + name, props, 'P', S, harness, enforce=enforce, replace=replace, sources=src, replay=True,
+        kw.setdefault('replay', True)
+        G.append(Group('mapc.' + name, props, 'P', S, harness, enforce=enforce, replace=replace, sources=src,
                        what=what + ' [every key, every stored pointer, every map size; tree functions replaced by their per-key contracts (assumed, see C01)]', **kw))
     g('insert', ['C08', 'C16'], 'h_insert', 'cstl_map_insert',
       'insert: existing key -> 1, stored key/value pointers untouched, iterator to the existing entry; new key -> 0 and the new entry, or -1 with nothing changed when the allocation fails; the entry of every other key stays')
@@ -17,6 +18,7 @@ def groups():
     g('erase', ['C08'], 'h_erase', 'cstl_map_erase',
       'erase by key: 0, the stored pointers of the removed entry, its node released exactly once; absent key -> -1 and the end iterator; the entry of every other key stays and is not released')
     g('erase_iterator', ['C08'], 'h_erase_iterator', 'cstl_map_erase_iterator', 'erase by iterator: exactly the referenced entry is unlinked and released')
+    g('clear', ['C08', 'C15'], 'h_clear', 'cstl_map_clear', 'clear: every entry\'s stored key and value go to the callback exactly once (no node handle), every node is released, also without a callback; the tree\'s clear is a stub that hands each tracked entry to the element callback once', replace=[], replay=False)
     g('node_cmp', ['C08'], 'h_node_cmp', 'cstl_map_node_cmp', "the tree's element comparison passes the two keys and the user's private pointer to the user's function", replace=[])
     g('init', ['C08'], 'h_init', 'cstl_map_init', 'init: empty tree ordered by cstl_map_node_cmp with the map as private pointer, embedded-node offsets, user comparison stored', replace=[])
     return G
